@@ -11,16 +11,16 @@ BASELINE_CMD = ('cd /repo && /venv/bin/python -m pytest -ra -q -p no:cacheprovid
                 '--continue-on-collection-errors')
 
 P = {
-    'C01': ('layout / binding symmetry of parser and composer (abstract interpretation of the DSL), length links (affine, by window, tabulated), vector item-kind agreement, tabulated name=value and TXT composers, equality over the composed state, SCSV fold tabulated through the class defaults, small codecs evaluated against the wire format',
+    'C01': ('layout / binding symmetry of parser and composer (abstract interpretation of the DSL), length links (affine, by window, tabulated), vector item-kind agreement, tabulated name=value and TXT composers, equality over the composed state, SCSV fold tabulated through the class defaults, small codecs evaluated against the wire format, defaults that read the clock, flag keyed optional parts',
             'Decides the reader/writer-agreement clause of the round trip for all field values: same element sequence, widths, byte order, '
             'text codecs, nesting, optional branches, repetition; every length field the parser uses is derived by the composer from the '
             'size of what it writes (a stored or cached number is a finding); attribute binding on both sides; the SSL 2.0 header by '
             'tabulation; vector parameter vs vector composer; exhaustiveness of directions and registries; and that every parsable class '
-            'compares by value over all the state its composer writes; a composer adds no item the object does not hold; the signalling cipher suites survive the fold for every combination. Value-level equality of converters is not decided.'),
+            'compares by value over all the state its composer writes; a composer adds no item the object does not hold; the signalling cipher suites survive the fold for every combination; a default that reads the clock survives compose / parse; an optional part keyed on a flag is keyed on the same flag on both sides. Value-level equality of converters is not decided.'),
     'C02': ('exception-escape analysis over the parse-reachable call graph, converter / validator discipline of constructed objects, per-call-site bounds of datetime conversions, tabulated flag conversion, value-constraining validators, decoded-document shape, data-table shape',
             'Decides that no undocumented exception escapes through explicit raises, unconverted converter errors and value-constraining attrs validators (repository and library '
             'converters, by argument kind), validators that do not accept what the parse primitive produces, undefined parser keys, risky '
-            'operations on input-derived values, lazily decoded ASN.1, JSON documents of an unexpected shape, absent directives or nullable '
+            'operations on input-derived values, lazily decoded ASN.1 and certificate objects (any member read outside a ValueError handler), JSON documents of an unexpected shape, absent directives or nullable '
             'data-table columns, on any path from a parse entry point. TypeError from wrong argument types deep inside library internals '
             'is not decided.'),
     'C03': ('entry-point contract, input ownership, return-length forms, size-sign intervals, frame containment, nested-length use, sized-array and declared windows, SSL 2.0 length tabulated, entry points and parse_parsable evaluated from their own statements (AST / paths / DSL IR)',
@@ -34,10 +34,10 @@ P = {
             'no handler on a binary path swallows NotEnoughData, that the LDAP bridge recognises the decoder\'s short-input message for '
             'every byte count, the SSL 2.0 length arithmetic, and that the length a framing unit reports is the number of bytes it occupied. The reader-loop induction over fragmentations is an argument, not '
             'machine checked.'),
-    'C05': ('parse-range within compose-domain on the DSL IR, zone normalisation, SCSV fold/unfold, None-preserving converters, tabulated name=value / TXT / SPF network composers, URL projection, composer purity, timestamp and flag primitives tabulated',
+    'C05': ('parse-range within compose-domain on the DSL IR, zone normalisation, SCSV fold/unfold, None-preserving converters, tabulated name=value / TXT / SPF network composers, URL projection, composer purity, timestamp and flag primitives tabulated, text dates tabulated over a model of dateutil, JSON number members, IDNA names with the real codec (accepted means composable), DNSKEY RSA / DSA key fields as a parse-compose-parse pipeline',
             'Decides structural necessary conditions of canonical-form stability: everything the parser accepts can be composed; absent '
             'optional components stay absent; empty and absent values are written differently; URLs are rebuilt from all parts; TXT data '
-            'is chunked without loss; compose leaves the object as it was; a timestamp that is accepted is written back as the same bytes. Idempotence itself is value level.'),
+            'is chunked without loss; compose leaves the object as it was; a timestamp that is accepted is written back as the same bytes; dates in text form, JSON seconds, DNS / SNI names and DNSKEY key fields that are accepted can be composed and read back equal. Idempotence itself is value level.'),
     'C06': ('extracted parser and composer layouts compared with RFC layouts transcribed independently (sa/specs/tls.json), SSL 2.0 header tabulated over all header bytes on both sides, variant order, rejection table, timestamp primitives tabulated',
             'Decides for every supported SSL/TLS structure that both extracted layouts equal the RFC layout (order, widths, endianness, exact '
             'vector floor/ceiling and prefix width, length fields computed from the written data, attribute and registry bindings), that '
@@ -46,8 +46,8 @@ P = {
     'C07': ('layouts vs sa/specs/ssh.json, tabulated padding arithmetic, mpint pipeline tabulated against RFC 4251, software-version, banner terminator and name-list scanners tabulated from their own statements, rejection table, timestamp primitives',
             'Decides SSH layouts against the RFC tables, the padding rule for all payload lengths, mpint encoding for boundary bit lengths at '
             'any offset (thorough: every bit length up to 4129), banner grammar (version, software, comment, terminator, 255 byte limit) evaluated on a table of identification lines, name-list splitting, certificate validity '
-            'timestamps, rejections against the specification table; canonical form of negative mpints is outside the quantifier.'),
-    'C08': ('layouts vs sa/specs/dns.json, key tag tabulated against RFC 4034 Appendix B, RSA exponent length form and modulus width, per-algorithm key sizes, TXT chunking, complete consumption of key bytes, key material per algorithm evaluated, shared integer / timestamp / flag tabulations',
+            'timestamps, rejections against the specification table, the curve of EdDSA keys, the SEC1 point of ECDSA keys for coordinates with leading zero octets; canonical form of negative mpints is outside the quantifier.'),
+    'C08': ('layouts vs sa/specs/dns.json, key tag tabulated against RFC 4034 Appendix B, RSA exponent length form and modulus width, per-algorithm key sizes, TXT chunking, complete consumption of key bytes, key material per algorithm evaluated, DSA key fields (T and the common field width) as a pipeline, shared integer / timestamp / flag tabulations',
             'Decides DNSSEC RDATA layouts and per-algorithm key sizes against the RFC tables, the key tag over RDATA samples on both sides of '
             'every carry boundary (even and odd lengths), the RFC 3110 exponent length forms and modulus width, that no key bytes are left '
             'unread, TXT character-strings, and the primitives behind RRSIG timestamps and DNSKEY flags.'),
@@ -79,7 +79,7 @@ P = {
             'Decides the JA3 string for every shape of hello the tabulation covers, that exactly the RFC 8701 values are ignored, that nothing '
             'on the way from bytes to ja3 keeps state between messages, and that extension parsers do not silently drop out of the '
             'sections by rejecting allowed content; equality with a reference implementation on bytes is value level.'),
-    'C16': ('hassh text and digest rendering tabulated over name-list shapes, fingerprint code tabulated, key_bytes exhaustiveness, key blob layouts vs specification, name-list scanner tabulated, validity timestamps tabulated, nested key blobs consumed completely',
+    'C16': ('hassh text and digest rendering tabulated over name-list shapes, fingerprint code tabulated, key_bytes exhaustiveness, key blob layouts vs specification, name-list scanner tabulated, validity timestamps tabulated, nested key blobs consumed completely, ECDSA point width',
             'Decides HASSH (text, separators, digest rendering incl. leading zero nibbles) on all shapes of the four lists including empty '
             'ones, the fingerprint computations, and that the hashed blob is the specified encoding; digest implementations are trusted.'),
     'C17': ('partial evaluation of all six comparison operators over the finite version table; order axioms on the decision matrix; foreign-operand guard',
